@@ -79,6 +79,7 @@ type FuncContract struct {
 	ReadsOnly    map[string][]string // parameter name -> the only fields of its pointee the call tree may read
 	NoWrites     bool                // the call tree performs no store to non-local memory (mechanical scan)
 	WritesVia    []string            // ... except inside these functions (mechanical scan)
+	NoGlobalWrites bool              // no package-level variable is written anywhere in the call tree (mechanical scan)
 	Instances    []GhostInstance     // extra instantiations of ghost-parametric assumptions
 	AtReturn     map[int][]Clause // ordinal (source order) of a return statement -> condition that must hold there
 	AtStore      map[string][]Clause // field name -> condition on the stored `value` at every store to that field
@@ -174,7 +175,7 @@ func newContracts() *Contracts {
 		Ghosts: map[string]*GhostVar{}, Externs: map[string]*FuncContract{}, Writers: map[string][]string{}, Scenarios: map[string]*Scenario{}, ImportsByPkg: map[string][]string{}}
 }
 
-var kwRe = regexp.MustCompile(`^(import|define|ghost|func|extern|lemma|axiom|fact|scenario|do|establishes|writers|callers-inline|thorough-only|prefix-only|abstract|at-store|at-return|reads-only|no-writes|writes-only-via|instances|induct|callback-modifies|callback-ensures|callback-requires|views|at-call|allow-extern|props|requires|ensures|modifies|nopanic|exact-conversions|trusted|inline|split|loop|assert|use|hyp|concl|timeout|bounded|opaque)\b`)
+var kwRe = regexp.MustCompile(`^(import|define|ghost|func|extern|lemma|axiom|fact|scenario|do|establishes|writers|callers-inline|thorough-only|prefix-only|abstract|at-store|at-return|reads-only|no-writes|writes-only-via|instances|induct|no-global-writes|callback-modifies|callback-ensures|callback-requires|views|at-call|allow-extern|props|requires|ensures|modifies|nopanic|exact-conversions|trusted|inline|split|loop|assert|use|hyp|concl|timeout|bounded|opaque)\b`)
 
 func parseExprSrc(src string) (ast.Expr, error) {
 	// ==> is written as implies(); allow `a ==> b` at top level as sugar, right-assoc
@@ -437,6 +438,8 @@ func (cs *Contracts) LoadContractFile(path string, pkgShort string) error {
 				return fmt.Errorf("%s:%d: induct PARAM belongs to a lemma", path, r.line)
 			}
 			curLemma.Induct = strings.TrimSpace(r.text)
+		case "no-global-writes":
+			cur.NoGlobalWrites = true
 		case "no-writes":
 			cur.NoWrites = true
 		case "writes-only-via":
